@@ -123,7 +123,8 @@ def r1_validation_dominates_use(ctx):
     vcalls = [c for c in P.calls(val_m) if P.un(c.func) == "_get_basilisp_bytecode"]
     for c in vcalls:
         args = [P.un(a) for a in c.args]
-        ok = len(args) == 4 and args[1] == "path_stats['mtime']" and args[2] == "path_stats['size']"
+        # (where the mapping comes from is decided below: self.path_stats(<source filename>))
+        ok = len(args) == 4 and args[1].endswith("['mtime']") and args[2].endswith("['size']") and args[1][:-len("['mtime']")] == args[2][:-len("['size']")]
         ctx.ob("C14.R1", f"{IMP}::validation is given (mtime, size) of the source", IMP, c.lineno, ok, "" if ok else f"`{P.un(c)}`: validation is not given (mtime, size) of the source in that order")
         if val_m is ex:
             assigned = [P.un(t) for a in P.walk_local(ex) if isinstance(a, ast.Assign) and a.value is c for t in a.targets]
@@ -135,10 +136,79 @@ def r1_validation_dominates_use(ctx):
     txt = P.un(ps)
     ok = "'mtime': int(stat.st_mtime)" in txt and "'size': stat.st_size" in txt and "os.stat(path)" in txt
     ctx.ob("C14.R1", f"{IMP}::path_stats::mtime/size of the given path", IMP, ps.lineno, ok, "" if ok else "path_stats no longer reports st_mtime / st_size of the path")
-    em = ctx.fn(IMP, "BasilispImporter.exec_module")
-    ok = any(isinstance(a, ast.Assign) and P.un(a.targets[0]) == "path_stats" and P.un(a.value) == "self.path_stats(filename)" for a in ast.walk(em)) and \
-        any(isinstance(a, ast.Assign) and P.un(a.targets[0]) == "filename" and P.un(a.value) == "spec.loader_state['filename']" for a in ast.walk(em))
-    ctx.ob("C14.R1", f"{IMP}::exec_module::stats are those of the source file", IMP, em.lineno, ok, "" if ok else "the stats compared with the header are not the source file's")
+    # the (mtime, size) a header is compared with, and the (mtime, size) a header is written with, are
+    # those of the source file -- and the ones written were taken *before* the source text was read:
+    # a header stamped after compilation vouches for a text the payload was not compiled from when
+    # the file is saved in between
+    cls = P.find_def(ctx.py(IMP), "BasilispImporter")
+    meths = P.methods(cls)
+
+    def stat_origin(m, e, depth=0):
+        """The self.path_stats(...) calls `e` (a name or subscript) may come from: [(method, None, call)]"""
+        if isinstance(e, ast.Subscript):
+            e = e.value
+        if isinstance(e, ast.Call) and P.un(e.func) == "self.path_stats":
+            return [(m, None, e)]
+        if not isinstance(e, ast.Name) or depth > 3:
+            return None
+        params = [a.arg for a in m.args.args]
+        assigns = [a for a in ast.walk(m) if isinstance(a, ast.Assign) and any(isinstance(t, ast.Name) and t.id == e.id for t in a.targets)]
+        if e.id not in params and not assigns:
+            return None
+        out = []
+        if e.id in params:
+            idx = params.index(e.id) - 1
+            sites = [(m2, c) for m2 in P.all_methods(cls) for c in P.calls(m2) if P.un(c.func) == f"self.{m.name}"]
+            if not sites:
+                return None
+            for m2, c in sites:
+                arg = c.args[idx] if idx < len(c.args) else next((k.value for k in c.keywords if k.arg == e.id), None)
+                o = stat_origin(m2, arg, depth + 1) if arg is not None else None
+                if o is None:
+                    return None
+                out += o
+        for a in assigns:
+            o = stat_origin(m, a.value, depth + 1)
+            if o is None:
+                return None
+            out += o
+        return out
+
+    def source_path(m, e, depth=0):
+        """True if `e` is the 'filename' entry of the loader state."""
+        t = P.un(e)
+        if t.endswith("loader_state['filename']"):
+            return True
+        if not isinstance(e, ast.Name) or depth > 3:
+            return False
+        assigns = [a for a in ast.walk(m) if isinstance(a, ast.Assign) and any(isinstance(t2, ast.Name) and t2.id == e.id for t2 in a.targets)]
+        return bool(assigns) and all(source_path(m, a.value, depth + 1) for a in assigns)
+
+    consumers = [(m, c, "compared") for m in P.all_methods(cls) for c in P.calls(m) if P.un(c.func) == "_get_basilisp_bytecode"] + \
+                [(m, c, "written") for m in P.all_methods(cls) for c in P.calls(m) if P.un(c.func) == "_basilisp_bytecode"]
+    if len(consumers) < 2:
+        raise AnalysisError("anchor vanished: the importer no longer calls _get_basilisp_bytecode / _basilisp_bytecode")
+    for m, c, what in consumers:
+        pos = 1 if what == "compared" else 0
+        o1 = stat_origin(m, c.args[pos]) if len(c.args) > pos + 1 else None
+        o2 = stat_origin(m, c.args[pos + 1]) if len(c.args) > pos + 1 else None
+        ok = bool(o1) and bool(o2) and all(cc.args and source_path(mm, cc.args[0]) for mm, _a, cc in o1 + o2)
+        why = "" if ok else f"`{P.un(c)}`: the mtime/size {what} do not come from self.path_stats(<the loader state's source filename>)"
+        if ok and what == "written":
+            # taken in the writer itself: the stat has to come before the source is read there
+            for mm, a, cc in o1 + o2:
+                if mm is not m:
+                    continue  # handed in by the caller: taken before this function started
+                g = CFG(m)
+                readers = [nd for nd in g.nodes if nd.ast is not None and nd.kind in ("stmt", "test") and any(P.un(x.func) in ("reader.read_file", "compiler.compile_module", "reader.read", "self.get_data", "open") for x in P.calls(nd.ast))]
+                stat_nodes = [nd for nd in g.nodes if nd.ast is not None and P.contains(nd.ast, cc)]
+                if not readers:
+                    raise AnalysisError(f"{m.name}: the call that reads the source was not found")
+                if not all(g.dominated(r, stat_nodes, follow_exc=False) for r in readers):
+                    ok = False
+                    why = f"{m.name} takes `{P.un(cc)}` for the header it writes after the source has been read and compiled: a save of the file in between leaves a cache whose header vouches for the new text and whose payload is the old one"
+        ctx.ob("C14.R1", f"{IMP}::{m.name}::(mtime, size) {what} are the source file's, taken before it is read", IMP, c.lineno, ok, why,
+               witness="save the .lpy while it is being compiled: the next process runs the old code from a cache that validates")
 
 
 def _const_len(node) -> int | None:
@@ -521,6 +591,15 @@ def r5_generated_names_of_cached_code_are_retired_before_it_runs(ctx):
 
 
 SELFTEST = [
+    {"name": "the header written is stamped after compilation", "file": IMP, "expect": "C14.R1",
+     "old": "        cache_file_bytes = _basilisp_bytecode(\n", "new": "        path_stats = self.path_stats(filename)\n        cache_file_bytes = _basilisp_bytecode(\n"},
+    {"name": "twin: the validating method stats the source itself", "expect": None, "edits": [
+        {"file": IMP, "old": "        cache_data = self.get_data(loader_state[\"cache_filename\"])\n        return _get_basilisp_bytecode(\n",
+         "new": "        cache_data = self.get_data(loader_state[\"cache_filename\"])\n        source_stats = self.path_stats(loader_state[\"filename\"])\n        return _get_basilisp_bytecode(\n"},
+        {"file": IMP, "old": "            fullname, path_stats[\"mtime\"], path_stats[\"size\"], cache_data\n", "new": "            fullname, source_stats[\"mtime\"], source_stats[\"size\"], cache_data\n"}]},
+    {"name": "the header is compared with the stats of the cache file", "file": IMP, "expect": "C14.R1",
+     "old": "        cache_data = self.get_data(loader_state[\"cache_filename\"])\n        return _get_basilisp_bytecode(\n",
+     "new": "        cache_data = self.get_data(loader_state[\"cache_filename\"])\n        path_stats = self.path_stats(loader_state[\"cache_filename\"])\n        return _get_basilisp_bytecode(\n"},
     {"name": "cached code runs before its generated names are retired (the repaired defect)", "file": COMPILER, "expect": "C14.R5",
      "old": "    advance_name_id(max(map(_max_generated_name_id, code), default=0))\n", "new": ""},
     {"name": "only the top-level code objects are scanned for generated names", "file": COMPILER, "expect": "C14.R5",
